@@ -4,6 +4,7 @@ def b_TrafficLight_create_node : CR.SrcW.Builder where
   kind := .node
   tag := "trafficLight"
   xsd := "trafficLight"
+  path := []
   parent := ""
   attrs := [("id", (.str "_.traffic_light_id"))]
   gattrs := []
@@ -30,7 +31,8 @@ def b_TrafficLight_create_node_active : CR.SrcW.Builder where
   key := "TrafficLightXMLNode.create_node/active"
   kind := .node
   tag := "active"
-  xsd := ""
+  xsd := "trafficLight"
+  path := ["active"]
   parent := "TrafficLightXMLNode.create_node"
   attrs := []
   gattrs := []
@@ -43,7 +45,8 @@ def b_TrafficLight_create_node_direction : CR.SrcW.Builder where
   key := "TrafficLightXMLNode.create_node/direction"
   kind := .node
   tag := "direction"
-  xsd := ""
+  xsd := "trafficLight"
+  path := ["direction"]
   parent := "TrafficLightXMLNode.create_node"
   attrs := []
   gattrs := []
@@ -56,7 +59,8 @@ def b_TrafficLight_create_node_position : CR.SrcW.Builder where
   key := "TrafficLightXMLNode.create_node/position"
   kind := .node
   tag := "position"
-  xsd := ""
+  xsd := "trafficLight"
+  path := ["position"]
   parent := "TrafficLightXMLNode.create_node"
   attrs := []
   gattrs := []
